@@ -231,13 +231,20 @@ Definition val_list (c : pcfg) (s : string) : vlres :=
   end.
 
 (* ---------- key / listItem ---------- *)
-Inductive kres := KOk (d : vmap) (rest : string) | KEof (d : vmap) | KErr | KFuel.
-Inductive lres := LOk (l : list val) (rest : string) | LEof (l : list val) | LErr | LFuel.
+(* An error result carries the table (list) as the call leaves it: what had been stored before
+   the failure stays stored (ParseInto changes its destination in place).  At the key the
+   failing pair names the content is the model's value-semantic reading and is NOT claimed to
+   be what Go leaves there in every case (a failing --set-file reader stores a nil, a panic
+   inside listItem skips the final store, slices are patched in place); every OTHER key is
+   exact, which is what the frame theorem (StrvalsProofs.parse_frame) is about. *)
+Inductive kres := KOk (d : vmap) (rest : string) | KEof (d : vmap) | KErr (d : vmap) | KFuel.
+Inductive lres := LOk (l : list val) (rest : string) | LEof (l : list val) | LErr (l : list val) | LFuel.
 
 (* the value after "name=" for the typed / string / file parsers:
    Some (v, rest, eof): eof = valList hit the end of input (the key is set to "" and io.EOF
    is returned) *)
-Inductive vres := VOk (v : val) (rest : string) | VEof | VErr.
+(* VErrNil: the reader failed on a plain value (only --set-file can): key() has stored a nil by then *)
+Inductive vres := VOk (v : val) (rest : string) | VEof | VErr | VErrNil.
 
 Definition value_after_eq (c : pcfg) (s : string) : vres :=
   match pmode_of c with
@@ -256,7 +263,7 @@ Definition value_after_eq (c : pcfg) (s : string) : vres :=
       | VLErr => VErr
       | VLNotList =>
           let '(rs, _, rest) := runes_until true stop_comma s in
-          match reader c rs with Some v => VOk v rest | None => VErr end
+          match reader c rs with Some v => VOk v rest | None => VErrNil end
       end
   end.
 
@@ -269,23 +276,23 @@ Fixpoint key (f : nat) (c : pcfg) (d : vmap) (lvl : nat) (s : string) {struct f}
       let lit := match pmode_of c with MLiteral => true | _ => false end in
       let '(k, last, rest) := runes_until (negb lit) (if lit then stop_key_lit else stop_key) s in
       match last with
-      | None => match k with EmptyString => KEof d | _ => KErr end      (* "key has no value" *)
+      | None => match k with EmptyString => KEof d | _ => KErr d end      (* "key has no value" *)
       | Some ch =>
           if ch_eq ch c_lbr then
             match key_index (negb lit) rest with
-            | None => KErr
+            | None => KErr d
             | Some (i, rest1) =>
                 match (match mget k d with
                        | None => Some []
                        | Some (VList l) => Some l
                        | Some _ => None                                  (* .([]interface{}) panics *)
                        end) with
-                | None => KErr
+                | None => KErr d
                 | Some l =>
                     match list_item f' c l i lvl rest1 with
                     | LOk l' rest2 => KOk (set k (VList l') d) rest2
                     | LEof l' => KEof (set k (VList l') d)
-                    | LErr => KErr
+                    | LErr l' => KErr (set k (VList l') d)              (* set(data, kk, list); return err *)
                     | LFuel => KFuel
                     end
                 end
@@ -294,18 +301,19 @@ Fixpoint key (f : nat) (c : pcfg) (d : vmap) (lvl : nat) (s : string) {struct f}
             match pmode_of c, value_after_eq c rest with
             | _, VOk v rest1 => KOk (set k v d) rest1
             | _, VEof => KEof (set k (VStr EmptyString) d)
-            | _, VErr => KErr
+            | _, VErr => KErr d
+            | _, VErrNil => KErr (set k VNull d)                        (* v, e := t.reader(rs); set(data, k, v); return e *)
             end
-          else if ch_eq ch c_comma then KErr                            (* "key has no value (cannot end with ,)" *)
+          else if ch_eq ch c_comma then KErr (set k (VStr EmptyString) d) (* set(data, k, ""); "key has no value (cannot end with ,)" *)
           else (* '.' *)
-            if Nat.ltb max_nested_name_level (S lvl) then KErr
+            if Nat.ltb max_nested_name_level (S lvl) then KErr d
             else
               match (match mget k d with
                      | None => Some ([], false)
                      | Some (VMap m) => Some (m, true)
                      | Some _ => None                                    (* .(map[string]interface{}) panics *)
                      end) with
-              | None => KErr
+              | None => KErr d
               | Some (inner, existed) =>
                   let writeback (inner' : vmap) :=
                     if existed then mset k (VMap inner') d               (* same map object, changed in place *)
@@ -313,11 +321,11 @@ Fixpoint key (f : nat) (c : pcfg) (d : vmap) (lvl : nat) (s : string) {struct f}
                   match key f' c inner (S lvl) rest with
                   | KOk inner' rest1 =>
                       match inner' with
-                      | [] => KErr                                       (* "key map has no value" *)
+                      | [] => KErr d                                     (* "key map has no value" *)
                       | _ => KOk (writeback inner') rest1
                       end
                   | KEof inner' => KEof (writeback inner')
-                  | KErr => KErr
+                  | KErr inner' => KErr (writeback inner')              (* if len(inner) != 0 { set(...) }; return e *)
                   | KFuel => KFuel
                   end
               end
@@ -328,27 +336,27 @@ with list_item (f : nat) (c : pcfg) (l : list val) (i : Z) (lvl : nat) (s : stri
   match f with
   | O => LFuel
   | S f' =>
-      if (i <? 0)%Z then LErr
+      if (i <? 0)%Z then LErr l
       else
         let lit := match pmode_of c with MLiteral => true | _ => false end in
         let '(k, last, rest) := runes_until (negb lit) stop_item s in
         match k with
-        | String _ _ => LErr                                             (* "unexpected data at end of array index" *)
+        | String _ _ => LErr l                                           (* "unexpected data at end of array index" *)
         | EmptyString =>
             match last with
             | None => LEof l
             | Some ch =>
                 if ch_eq ch c_eq then
                   match value_after_eq c rest with
-                  | VOk v rest1 => match set_index l i v with Some l' => LOk l' rest1 | None => LErr end
-                  | VEof => match set_index l i (VStr EmptyString) with Some l' => LOk l' EmptyString | None => LErr end
-                  | VErr => LErr
+                  | VOk v rest1 => match set_index l i v with Some l' => LOk l' rest1 | None => LErr l end
+                  | VEof => match set_index l i (VStr EmptyString) with Some l' => LOk l' EmptyString | None => LErr l end
+                  | VErr | VErrNil => LErr l
                   end
                 else if ch_eq ch c_lbr then
-                  if Nat.ltb max_nested_name_level (S lvl) then LErr     (* a nested list counts as a level *)
+                  if Nat.ltb max_nested_name_level (S lvl) then LErr l   (* a nested list counts as a level *)
                   else
                   match key_index (negb lit) rest with
-                  | None => LErr
+                  | None => LErr l
                   | Some (nexti, rest1) =>
                       match (if in_range l i
                              then match nth_val i l with
@@ -357,23 +365,23 @@ with list_item (f : nat) (c : pcfg) (l : list val) (i : Z) (lvl : nat) (s : stri
                                   | _ => None                            (* .([]interface{}) panics *)
                                   end
                              else Some ([], false)) with
-                      | None => LErr
+                      | None => LErr l
                       | Some (crt, existed) =>
                           match list_item f' c crt nexti (S lvl) rest1 with
-                          | LOk l2 rest2 => match set_index l i (VList l2) with Some l' => LOk l' rest2 | None => LErr end
+                          | LOk l2 rest2 => match set_index l i (VList l2) with Some l' => LOk l' rest2 | None => LErr l end
                           | LEof l2 =>
                               match l2 with
                               | _ :: _ =>                                (* input ended inside the nested item: kept *)
-                                  match set_index l i (VList l2) with Some l' => LEof l' | None => LErr end
+                                  match set_index l i (VList l2) with Some l' => LEof l' | None => LErr l end
                               | [] => if existed then LEof (set_nth (Z.to_nat i) (VList l2) l) else LEof l
                               end
-                          | LErr => LErr
+                          | LErr _ => LErr l
                           | LFuel => LFuel
                           end
                       end
                   end
                 else (* '.' *)
-                  if Nat.ltb max_nested_name_level (S lvl) then LErr     (* the '.' read here counts as a level *)
+                  if Nat.ltb max_nested_name_level (S lvl) then LErr l   (* the '.' read here counts as a level *)
                   else
                   let '(l1, inner, inplace) :=
                     if in_range l i
@@ -383,14 +391,14 @@ with list_item (f : nat) (c : pcfg) (l : list val) (i : Z) (lvl : nat) (s : stri
                          end
                     else (l, [], false) in
                   match key f' c inner (S lvl) rest with
-                  | KOk inner' rest1 => match set_index l1 i (VMap inner') with Some l' => LOk l' rest1 | None => LErr end
+                  | KOk inner' rest1 => match set_index l1 i (VMap inner') with Some l' => LOk l' rest1 | None => LErr l1 end
                   | KEof inner' =>
                       match inner' with
                       | _ :: _ =>                                        (* "a[0].b=" at the end of the input: kept *)
-                          match set_index l1 i (VMap inner') with Some l' => LEof l' | None => LErr end
+                          match set_index l1 i (VMap inner') with Some l' => LEof l' | None => LErr l1 end
                       | [] => if inplace then LEof (set_nth (Z.to_nat i) (VMap inner') l1) else LEof l1
                       end
-                  | KErr => LErr
+                  | KErr _ => LErr l1
                   | KFuel => LFuel
                   end
             end
@@ -398,7 +406,7 @@ with list_item (f : nat) (c : pcfg) (l : list val) (i : Z) (lvl : nat) (s : stri
   end.
 
 (* ---------- parse: the loop over key=value pairs ---------- *)
-Inductive pres := POk (d : vmap) | PErr | PFuel.
+Inductive pres := POk (d : vmap) | PErr (d : vmap) | PFuel.
 
 Fixpoint parse_loop (f : nat) (c : pcfg) (d : vmap) (s : string) : pres :=
   match f with
@@ -407,7 +415,7 @@ Fixpoint parse_loop (f : nat) (c : pcfg) (d : vmap) (s : string) : pres :=
       match key (S (String.length s)) c d 0 s with
       | KOk d' rest => parse_loop f' c d' rest
       | KEof d' => POk d'
-      | KErr => PErr
+      | KErr d' => PErr d'
       | KFuel => PFuel
       end
   end.
